@@ -15,10 +15,13 @@ CHECKS["C17"] = dict(
         "a single crash per history (the restart itself is not killed)",
         "the acknowledged work of a checkpoint is the set of samples the model had returned before the checkpoint began (the sequential loop and the one-worker parallel loop "
         "checkpoint after every job); this is validated at every kill point between two checkpoints, where the restart must not re-compute any of them",
-        "2-dimensional problems with one output, budgets {6,12}, batch sizes {1,2}; parallel mode only with one worker thread (its event history is deterministic; "
+        "2-dimensional problems with one output, budgets {6,12}, batch sizes {1,2}; families: local polynomial, global (quick) + wavelet, sequence, Fourier (thorough); parallel mode only with one worker thread (its event history is deterministic; "
         "more workers belong to C18)",
-        "sanitizer reports of restarts are not symbolised while exploring (replay prints full reports); a single allocation above 256 MB or a resident growth of 120 MB "
-        "while reading a checkpoint of < 1 KB counts as allocation failure / runaway",
+        "sanitizer reports of restarts are not symbolised while exploring (replay prints full reports); the harness re-executes itself with a fixed address-space layout so that "
+        "what a restart makes of uninitialised words is reproducible; a single allocation above 64 MB or a resident growth of 32 MB during a restart (whose grids need a few MB at most) "
+        "counts as allocation failure / runaway",
+        "thorough tier: checkpoints above 4 KiB (grid preloaded with 1537 points, the only way to get a non-empty sample store into a checkpoint) are torn at "
+        "{1, n-1, field boundaries -1/0/+1, every 512th byte, every byte of the last 320 bytes} instead of every byte",
     ],
     jobs=[dict(harness="crash_ckpt", variant="asan", args=[], quick=["--tier", "quick"], thorough=["--tier", "thorough"],
                deadline_quick=200, deadline_thorough=1100)],
